@@ -33,6 +33,11 @@ pub struct Case {
     /// `half-y` (the value only, not its governing type) from its first import and uses it in a constraint
     #[serde(default)]
     pub assoc: bool,
+    /// every module constrains an INTEGER by one of its own named numbers and an ENUMERATED by one of its own
+    /// enumerals; the last module of the set also defines values of exactly those names (X.680 19.10 and 20.?:
+    /// inside the type's own value notation the identifier is the named number, whatever a neighbour defines)
+    #[serde(default)]
+    pub capture: bool,
 }
 
 fn snake(name: &str) -> String {
@@ -82,8 +87,16 @@ fn half_name(m: &str) -> String {
 
 /// the `assoc` variant: an imported value whose governing type is not imported (the compiler has to add that
 /// type to the importing module's use line, and to no other module's)
-pub fn module_text_variant(mods: &[Mod], i: usize, shared: bool, assoc: bool) -> String {
+pub fn module_text_variant(mods: &[Mod], i: usize, shared: bool, assoc: bool, capture: bool) -> String {
     let mut t = module_text_shared(mods, i, shared);
+    if capture {
+        let x = &mods[i].name;
+        let mut extra = format!("Lim-{x} ::= INTEGER {{ lim(10), top(20) }} (0..lim)\nHue-{x} ::= ENUMERATED {{ red, lim, blue }}\nW{x} ::= SEQUENCE {{ n Lim-{x} (0..top) }}\n");
+        if i + 1 == mods.len() {
+            extra += "lim INTEGER ::= 99\ntop INTEGER ::= 77\n";
+        }
+        t = t.replace("END\n", &format!("{extra}END\n"));
+    }
     if assoc {
         let x = &mods[i].name;
         let mut extra = format!("Pct-{x} ::= INTEGER (0..100)\n{} Pct-{x} ::= 50\n", half_name(x));
@@ -217,7 +230,7 @@ impl Prop for C12 {
         "C12"
     }
     fn rule(&self) -> String {
-        "module sets of 2 modules (all 8×8 tagging×extensibility default assignments × all 4 import digraphs) and of 3 modules (pairwise-distinct defaults from a 4-palette × all 64 import digraphs, cyclic included; thorough also 4 modules on a ring/star/complete graph); every module has a tagged SEQUENCE, CHOICE, ENUMERATED, a type and a value, and uses each imported type as component type and each imported value as constraint endpoint; for every set: every non-empty subset closed under `imports from`, in every order, handed to one Compiler as one literal per module (and once as a single concatenated literal), with and without default_wildcard_imports, plus one duplicated source. Oracle: differential — the `pub mod x` projection of X in the joint run equals that of X compiled with only its import closure; one `use super::<y>::{…}` per IMPORTS clause with exactly the mangled symbols in clause order (`*` iff wildcard); module-qualified references render as super::<y>::<T>, also when they close a type cycle across two modules and are boxed. Non-trivial: joint and stand-alone runs compiled cleanly and every module block was compared.".into()
+        "module sets of 2 modules (all 8×8 tagging×extensibility default assignments × all 4 import digraphs) and of 3 modules (pairwise-distinct defaults from a 4-palette × all 64 import digraphs, cyclic included; thorough also 4 modules on a ring/star/complete graph); every module has a tagged SEQUENCE, CHOICE, ENUMERATED, a type and a value, and uses each imported type as component type and each imported value as constraint endpoint (variants: all modules define the same names; an imported value whose type is not imported; every module constrains an INTEGER by its own named numbers while the last module defines values of exactly those names); for every set: every non-empty subset closed under `imports from`, in every order, handed to one Compiler as one literal per module (and once as a single concatenated literal), with and without default_wildcard_imports, plus one duplicated source. Oracle: differential — the `pub mod x` projection of X in the joint run equals that of X compiled with only its import closure; one `use super::<y>::{…}` per IMPORTS clause with exactly the mangled symbols in clause order (`*` iff wildcard); module-qualified references render as super::<y>::<T>, also when they close a type cycle across two modules and are boxed. Non-trivial: joint and stand-alone runs compiled cleanly and every module block was compared.".into()
     }
     fn enumerate(&self, tier: Tier, _seed: u64) -> Vec<Case> {
         let tags = ["", "EXPLICIT", "IMPLICIT", "AUTOMATIC"];
@@ -227,15 +240,16 @@ impl Prop for C12 {
         let mut push_set = |mods: Vec<Mod>, out: &mut Vec<Case>, dups: bool| {
             let n = mods.len();
             for o in orders(n, &mods, dups) {
-                out.push(Case { mods: mods.clone(), order: o.clone(), single_source: false, wildcard: false, shared: false, assoc: false });
+                out.push(Case { mods: mods.clone(), order: o.clone(), single_source: false, wildcard: false, shared: false, assoc: false, capture: false });
                 if o.len() == n && n == 2 {
-                    out.push(Case { mods: mods.clone(), order: o.clone(), single_source: false, wildcard: false, shared: true, assoc: false });
-                    out.push(Case { mods: mods.clone(), order: o.clone(), single_source: false, wildcard: false, shared: false, assoc: true });
+                    out.push(Case { mods: mods.clone(), order: o.clone(), single_source: false, wildcard: false, shared: true, assoc: false, capture: false });
+                    out.push(Case { mods: mods.clone(), order: o.clone(), single_source: false, wildcard: false, shared: false, assoc: true, capture: false });
+                    out.push(Case { mods: mods.clone(), order: o.clone(), single_source: false, wildcard: false, shared: false, assoc: false, capture: true });
                 }
                 if o.len() == n {
-                    out.push(Case { mods: mods.clone(), order: o.clone(), single_source: true, wildcard: false, shared: false, assoc: false });
+                    out.push(Case { mods: mods.clone(), order: o.clone(), single_source: true, wildcard: false, shared: false, assoc: false, capture: false });
                     if o[0] == 0 {
-                        out.push(Case { mods: mods.clone(), order: o, single_source: false, wildcard: true, shared: false, assoc: false });
+                        out.push(Case { mods: mods.clone(), order: o, single_source: false, wildcard: true, shared: false, assoc: false, capture: false });
                     }
                 }
             }
@@ -288,7 +302,7 @@ impl Prop for C12 {
     }
     fn check(&self, c: &Case) -> CaseResult {
         let cfg = Cfg { wildcard: c.wildcard, ..Default::default() };
-        let texts: Vec<String> = (0..c.mods.len()).map(|i| module_text_variant(&c.mods, i, c.shared, c.assoc)).collect();
+        let texts: Vec<String> = (0..c.mods.len()).map(|i| module_text_variant(&c.mods, i, c.shared, c.assoc, c.capture)).collect();
         let sources: Vec<String> = if c.single_source { vec![c.order.iter().map(|i| texts[*i].clone()).collect::<Vec<_>>().join("\n")] } else { c.order.iter().map(|i| texts[*i].clone()).collect() };
         let joint = compile_rasn(&sources, &cfg);
         let dup = {
